@@ -25,7 +25,7 @@ REQUIRED_EVENTS = ["sessions", "writes", "snapshots_compared", "targets_verified
                    "writes_Text", "writes_Number", "writes_Switch", "writes_BLOB", "multi_element_writes"]
 
 MODES = ["whole", "1024", "1", "random", "small"]
-SEXA = ["1:30", "-0:30", "12:15:30", "10 30", "5;15", "-12:15:45.5", "0:0:1", "359:59:59.99"]
+SEXA = ["1:30", "-0:30", "12:15:30", "10 30", "5;15", "-12:15:45.5", "0:0:1", "359:59:59.99", "10:30.5", "-0:00.25", "7:5.75"]
 
 
 def snapshot(drivers, specs):
